@@ -18,6 +18,38 @@ async fn main() -> datafusion::error::Result<()> {
     let ctx = SessionContext::new_with_config_rt(cfg, rt);
     ctx.register_table("a", Arc::new(MemTable::try_new(schema.clone(), vec![vec![mk(vec![0], vec![-14])], vec![mk(vec![1], vec![0])]])?))?;
     ctx.register_table("b", Arc::new(MemTable::try_new(schema.clone(), vec![vec![mk(vec![100, 101, 102], vec![-207, -300, -400])]])?))?;
+    if sql == "hive-join" {
+        // Finding (C02): with datafusion.optimizer.preserve_file_partitions >= 1 a hive-partitioned listing
+        // table declares Hash([k], n) for file groups that are grouped by partition *value*. A partitioned
+        // join with a table that is hash-repartitioned on k pairs group i with hash bucket i, which is not
+        // where the matching rows are: the join loses its matches.
+        //   nlj_repro <preserve_file_partitions> 2 hive-join
+        let dir = std::env::temp_dir().join(format!("hive_join_{}", std::process::id()));
+        for k in [0i64, 2] {
+            let d = dir.join(format!("k={k}"));
+            std::fs::create_dir_all(&d).unwrap();
+            let batch = mk(vec![10 * k, 10 * k + 1], vec![1, 2]);
+            let f = std::fs::File::create(d.join("part-0.parquet")).unwrap();
+            let mut w = datafusion::parquet::arrow::ArrowWriter::try_new(f, batch.schema(), None).unwrap();
+            w.write(&batch).unwrap();
+            w.close().unwrap();
+        }
+        let mut cfg = SessionConfig::new().with_target_partitions(parts);
+        cfg.options_mut().set("datafusion.optimizer.preserve_file_partitions", &limit.to_string()).unwrap();
+        cfg.options_mut().set("datafusion.optimizer.hash_join_single_partition_threshold", "0").unwrap();
+        cfg.options_mut().set("datafusion.optimizer.hash_join_single_partition_threshold_rows", "0").unwrap();
+        let ctx = SessionContext::new_with_config(cfg);
+        ctx.sql(&format!("CREATE EXTERNAL TABLE h (id BIGINT, v BIGINT, k BIGINT) STORED AS PARQUET PARTITIONED BY (k) LOCATION '{}/'", dir.display())).await?;
+        let kschema = Arc::new(Schema::new(vec![Field::new("id", DataType::Int64, false), Field::new("k", DataType::Int64, true)]));
+        let kb = RecordBatch::try_new(kschema.clone(), vec![Arc::new(Int64Array::from(vec![100, 101])), Arc::new(Int64Array::from(vec![0, 2]))]).unwrap();
+        ctx.register_table("m", Arc::new(MemTable::try_new(kschema, vec![vec![kb]])?))?;
+        let df = ctx.sql("SELECT h.id, m.id FROM h JOIN m ON h.k = m.k").await?;
+        println!("{}", datafusion::physical_plan::displayable(df.clone().create_physical_plan().await?.as_ref()).indent(true));
+        let out = df.collect().await?;
+        println!("rows: {} (4 expected)", out.iter().map(|b| b.num_rows()).sum::<usize>());
+        let _ = std::fs::remove_dir_all(&dir);
+        return Ok(());
+    }
     if sql == "reexec-parquet" {
         // Same defect, other symptom: the left child is a Parquet scan whose partitions share one work
         // queue of files; the second execution finds the queue drained, the fallback then fails with
